@@ -1,13 +1,15 @@
 import os
 from lib.core import Kani, Verus, Fn, VERUS_DIR
 from props.C09 import build as build_head_set
+from props.C02 import CM_UNIT
 
 PROPERTY = 'C01'
 LEVEL = 'proof'
 RT = dict(crate='aranya-runtime', features='testing,libc')
 B = 'crates/aranya-runtime/src/client/braiding.rs'
-HARNESS_FILES = ['verus/c09_head_set.py', 'kani/aranya-runtime/head_set.rs', 'kani/aranya-runtime/command.rs', 'kani/aranya-runtime/strand_heap.rs']
+HARNESS_FILES = ['verus/c09_head_set.py', 'verus/c02_convergence_map.py', 'kani/aranya-runtime/head_set.rs', 'kani/aranya-runtime/command.rs', 'kani/aranya-runtime/strand_heap.rs']
 UNITS = [
+    CM_UNIT,
     Verus('c09_head_set', build_head_set, min_verified=7,
           contract='HeadSet::push keeps the head set sorted and duplicate-free; lemma: two sorted duplicate-free sequences with equal element sets are equal — '
                    'the committed head set is a function of the SET of heads, not of arrival order. Unbounded.'),
